@@ -223,3 +223,8 @@ pub fn exec(fields: &[&str]) -> String {
         format!("FORMATS-DISAGREE json={} yaml={}", j, y)
     }
 }
+
+/// child-process entry point (`verif-harness child c20 …`), for checks that need process-global state
+pub fn child(_args: &[String]) -> i32 {
+    2
+}
